@@ -74,8 +74,92 @@ pub(crate) mod verif_probe {
         json!({"map": dump_map(&map), "cancels": packets})
     }
 
+    async fn login(v: Value) -> Value {
+        use tokio::io::AsyncWriteExt;
+        let user = v["user"].as_str().unwrap().to_string();
+        let db = v["database"].as_str().map(|x| x.to_string());
+        let kind = v["pool"].as_str().unwrap_or("none").to_string();
+        let attack = v["attack"].as_str().unwrap_or("wrong").to_string();
+        let resp_len = v["resp_len"].as_u64().unwrap_or(36) as usize;
+        let admin_only = v["admin_only"].as_bool().unwrap_or(false);
+        // configuration: admin credentials + optionally one pool
+        let mut cfg = crate::config::Config::default();
+        cfg.general.validate_config = false;
+        cfg.general.admin_username = "admin".to_string();
+        cfg.general.admin_password = "adminpw".to_string();
+        let dbname = db.clone().unwrap_or(user.clone());
+        if kind != "none" {
+            let mut pool = crate::config::Pool::default();
+            pool.shards.clear();
+            pool.shards.insert("0".to_string(), crate::config::Shard { database: "x".to_string(), mirrors: None,
+                servers: vec![crate::config::ServerConfig { host: "127.0.0.1".to_string(), port: 1, role: crate::config::Role::Primary }] });
+            let mut u = crate::config::User::default();
+            u.username = user.clone();
+            u.password = Some("secret".to_string());
+            u.auth_type = if kind == "trust" { crate::config::AuthType::Trust } else { crate::config::AuthType::MD5 };
+            pool.users.insert("0".to_string(), u);
+            cfg.pools.insert(dbname.clone(), pool);
+        }
+        crate::config::verif_probe::set_config(cfg);
+        let map: ClientServerMap = Arc::new(parking_lot::Mutex::new(HashMap::new()));
+        if crate::pool::ConnectionPool::from_config(map.clone()).await.is_err() { return json!({"error": "from_config failed"}); }
+        if let Some(p) = crate::pool::get_pool(&dbname, &user) { p.verif_mark_validated(); }
+        let (mut client_end, pgcat_end) = duplex(1 << 16);
+        let (read, write) = split(pgcat_end);
+        let (tx, rx) = tokio::sync::broadcast::channel::<()>(1);
+        let _keep = tx;
+        let mut startup = BytesMut::new();
+        startup.put_slice(b"user\0"); startup.put_slice(user.as_bytes()); startup.put_u8(0);
+        if let Some(d) = &db { startup.put_slice(b"database\0"); startup.put_slice(d.as_bytes()); startup.put_u8(0); }
+        startup.put_u8(0);
+        let task = tokio::spawn(async move {
+            Client::startup(read, write, "127.0.0.1:1".parse().unwrap(), startup, map, rx, admin_only).await.map(|_| ())
+        });
+        // read what the pooler says first
+        let mut admitted_msg = false;
+        let mut detail = String::new();
+        let mut salt: Option<[u8; 4]> = None;
+        let mut answered = false;
+        loop {
+            let code = match tokio::time::timeout(std::time::Duration::from_millis(1500), client_end.read_u8()).await { Ok(Ok(c)) => c, _ => break };
+            let len = match client_end.read_i32().await { Ok(l) => l, Err(_) => break };
+            let mut body = vec![0u8; (len as usize).saturating_sub(4)];
+            if client_end.read_exact(&mut body).await.is_err() { break; }
+            if code == b'R' && body.len() == 8 && body[3] == 5 {
+                salt = Some([body[4], body[5], body[6], body[7]]);
+                let s = salt.unwrap();
+                let correct = if db.as_deref() == Some("pgcat") || db.as_deref() == Some("pgbouncer") {
+                    crate::messages::md5_hash_password("admin", "adminpw", &s)
+                } else { crate::messages::md5_hash_password(&user, "secret", &s) };
+                let payload: Vec<u8> = match attack.as_str() {
+                    "correct" => correct,
+                    "empty" => vec![],
+                    "prefix" => correct[..std::cmp::min(resp_len, correct.len())].to_vec(),
+                    "admin_pw_other_user" => crate::messages::md5_hash_password(&user, "adminpw", &s),
+                    _ => { let mut w = correct.clone(); if w.len() > 5 { w[5] ^= 1; } w }
+                };
+                let mut m = BytesMut::new();
+                m.put_u8(b'p'); m.put_i32(payload.len() as i32 + 4); m.put_slice(&payload);
+                if client_end.write_all(&m).await.is_err() { break; }
+                answered = true;
+            } else if code == b'R' && body.len() == 4 && body == [0, 0, 0, 0] {
+                admitted_msg = true;
+            } else if code == b'E' {
+                detail = String::from_utf8_lossy(&body).replace('\0', " ");
+            } else if code == b'Z' { break; }
+        }
+        let res = tokio::time::timeout(std::time::Duration::from_secs(3), task).await;
+        let ok = matches!(res, Ok(Ok(Ok(()))));
+        json!({"admitted": ok && admitted_msg, "startup_ok": ok, "auth_ok_seen": admitted_msg, "challenged": salt.is_some(), "answered": answered, "detail": detail})
+    }
+
     pub(crate) fn handle(op: &str, v: &Value) -> Option<Value> {
         match op {
+            "startup_login" => {
+                let rt = tokio::runtime::Builder::new_multi_thread().worker_threads(2).enable_all().build().unwrap();
+                let vv = v.clone();
+                Some(rt.block_on(async move { login(vv).await }))
+            }
             "client_map_op" => {
                 let rt = tokio::runtime::Builder::new_multi_thread().worker_threads(2).enable_all().build().unwrap();
                 let vv = v.clone();
